@@ -3,7 +3,7 @@ CONSTANTS
   V <- VFixed
   StrLen = 3
   MutFmts <- FmtsAll
-  MutAll = TRUE
+  MutAll = FALSE
 INVARIANT PrintedAccepted
 INVARIANT RoundTrip
 INVARIANT CimObject
